@@ -183,7 +183,7 @@ func runFree(sc *Scenario, seed uint64) *ScenarioRun {
 	env := NewEnv()
 	run := &ScenarioRun{Env: env}
 	for pi, ph := range sc.Phases {
-		if st := env.RunPhaseFree(seed+uint64(pi), ph.Clients, 60*time.Second); st != "" {
+		if st := env.RunPhaseFree(seed+uint64(pi), ph.Clients, 20*time.Second); st != "" {
 			run.Stalled = fmt.Sprintf("phase %d: %s", pi, st)
 			break
 		}
@@ -234,6 +234,9 @@ func (g *opGen) mixedOp(nSetupTx int, allowDry bool) Op {
 	}
 	if allowDry && r.Chance(1, 6) {
 		op.DryRun = true
+	}
+	if r.Chance(1, 6) {
+		op.CancelAt = r.Range(1, 14) // the client gives up somewhere along the way
 	}
 	return op
 }
@@ -437,6 +440,9 @@ func genReferences(r *vc.Rand) *Scenario {
 		op.Reference = ref
 		if r.Chance(1, 8) {
 			op.Reference = ref + "-other"
+		}
+		if r.Chance(1, 6) { // a preview carrying the contested reference
+			op.DryRun = true
 		}
 		c := r.Intn(nClients)
 		plans[c].Ops = append(plans[c].Ops, op)
